@@ -9,13 +9,34 @@ Definition obs04 := (float * list float * list float * list nat)%type.
 
 (* route 0: MaskProblem directly / through ProblemWithCounters (also: class without provides_eval_hess_ψ, directly);
    route 1: FunctionalProblem — does not log eval_proj_diff_g (inherited from BoxConstrProblem);
-   route 2: ProblemWithCounters over a class that has provides_eval_hess_ψ_prod but no provides_eval_hess_ψ member *)
+   route 2: ProblemWithCounters over a class that has provides_eval_hess_ψ_prod but no provides_eval_hess_ψ member;
+   route 3: alpaqa::CasADiProblem (harness/drv_casadi.cpp) loaded from a generated CasADi-ABI shared object whose functions are the
+            closed forms of this family (harness/cas_closed_forms.h, operation order of drv_C04); `bits` = the members CasADiProblem
+            provides for the functions the shared object exports (f_grad_f always; never f_g / grad_f_grad_g_prod); the log lists
+            the GENERATED FUNCTIONS entered (numbering of drv_casadi: 0 f, 1 f_grad_f, 2 g, 3 grad_g_prod, 5 grad_L, 6 hess_L_prod,
+            8 psi, 9 psi_grad_psi, 10 hess_psi_prod) *)
 Inductive c04case :=
 | C04 (route : nat) (Q : list (list float)) (c : list float) (A At : list (list float))
       (b w lb ub x y Σ : list float) (bits : nat) (scale : float) (v : list float) (obs : list obs04).
 
 Definition codes (filt : bool) (l : list fn) : list nat :=
   map fn_code (if filt then filter (fun c => negb (Nat.eqb (fn_code c) 4)) l else l).
+
+(* which generated function a member of CasADiProblem enters: eval_grad_f and eval_f_grad_f both evaluate f_grad_f, eval_grad_ψ
+   forwards to eval_ψ_grad_ψ, eval_g / eval_grad_g_prod return without a call when m = 0, eval_proj_diff_g is inherited.
+   f_g / grad_f_grad_g_prod are never supplied by CasADiProblem (codes 12, 13 would show up as a disagreement). *)
+Definition cas_code (m0 : bool) (c : fn) : list nat :=
+  match c with
+  | Ff => [0] | Fgrad_f => [1] | Ff_grad_f => [1]
+  | Fg => if m0 then [] else [2]
+  | Fgrad_g_prod => if m0 then [] else [3]
+  | Fproj_diff_g => []
+  | Ff_g => [12] | Fgrad_f_grad_g_prod => [13]
+  | Fgrad_L => [5] | Fpsi => [8] | Fgrad_psi => [9] | Fpsi_grad_psi => [9]
+  | Fhess_L_prod => [6] | Fhess_psi_prod => [10]
+  end%nat.
+Definition route_log (route m : nat) (l : list fn) : list nat :=
+  if Nat.eqb route 3 then flat_map (cas_code (Nat.eqb m 0)) l else codes (Nat.eqb route 1) l.
 
 Definition model04 (cs : c04case) : list obs04 :=
   match cs with
@@ -29,7 +50,7 @@ Definition model04 (cs : c04case) : list obs04 :=
                   uhess_L_prod := uhess_L_prod P0;
                   uhess_psi_prod := fun _ _ _ _ v => map (fun _ => nan) v |} in
       let pr := if Nat.eqb route 2 then counters_prov false (prov_of_bits bits) else prov_of_bits bits in
-      let L := codes (Nat.eqb route 1) in
+      let L := route_log route (length b) in
       let z := 0%float in
       let e0 := te_f_grad_f P pr x in
       let e1 := te_f_g P pr x in
@@ -66,7 +87,7 @@ Definition model04g (cs : c04case) : list obs04 :=
                   uhess_L_prod := uhess_L_prod P0;
                   uhess_psi_prod := fun _ _ _ _ v => map (fun _ => nan) v |} in
       let pr := if Nat.eqb route 2 then counters_prov false (prov_of_bits bits) else prov_of_bits bits in
-      let L := codes (Nat.eqb route 1) in
+      let L := route_log route (length b) in
       let z := 0%float in
       let e0 := gvt_eval_f_grad_f P pr x in
       let e1 := gvt_eval_f_g P pr x in
